@@ -50,9 +50,14 @@ def run(ctx, idx):
     fields = idx.const(idx.module_of("mpilot.parser.parser"), idx.module_of("mpilot.parser.parser").consts["CommandNode"].args[1])
     args = {}
     for i, a in enumerate(ctor.args):
-        args[fields[i]] = a
+        args[fields[i]] = K.expand(fi, a)
     for k in ctor.keywords:
-        args[k.arg] = k.value
+        args[k.arg] = K.expand(fi, k.value)
+    raw_args = {}
+    for i, a in enumerate(ctor.args):
+        raw_args[fields[i]] = a
+    for k in ctor.keywords:
+        raw_args[k.arg] = k.value
     loopvar = None
     for n in own_nodes(fi.node):
         if isinstance(n, ast.For) and any(ctor is x for x in ast.walk(n)) and isinstance(n.target, ast.Name):
@@ -97,6 +102,28 @@ def run(ctx, idx):
                     dropped = None
                 ok = dropped == {"NewFieldName", "OutFileName"}
                 why = "arguments kept in order, dropping exactly %s" % sorted(dropped or [])
+    if not ok and isinstance(raw_args.get("arguments"), ast.Name):
+        # loop form: out = []; for arg in node.arguments: if arg.name not in <const>: out.append(arg)
+        nm = raw_args["arguments"].id
+        for lp in [n for n in own_nodes(fi.node) if isinstance(n, ast.For)]:
+            if not (is_node_attr(lp.iter, "arguments") and isinstance(lp.target, ast.Name)):
+                continue
+            apps = [c for c in ast.walk(lp) if isinstance(c, ast.Call) and isinstance(c.func, ast.Attribute) and c.func.attr == "append" and isinstance(c.func.value, ast.Name) and c.func.value.id == nm]
+            tests = [t for t in ast.walk(lp) if isinstance(t, ast.Compare) and len(t.ops) == 1 and isinstance(t.ops[0], (ast.NotIn, ast.In)) and isinstance(t.left, ast.Attribute) and t.left.attr == "name"]
+            inits = [n for n in own_nodes(fi.node) if isinstance(n, ast.Assign) and any(isinstance(t, ast.Name) and t.id == nm for t in n.targets)]
+            if len(apps) == 1 and len(tests) == 1 and apps[0].args and isinstance(apps[0].args[0], ast.Name) and apps[0].args[0].id == lp.target.id and len(inits) == 1 and isinstance(inits[0].value, ast.List) and not inits[0].value.elts:
+                try:
+                    dropped = set(idx.const(fi.module, tests[0].comparators[0], fi))
+                except KeyError:
+                    dropped = None
+                # append must happen exactly for names outside the dropped set
+                guard_if = [n for n in ast.walk(lp) if isinstance(n, ast.If) and n.test is tests[0]]
+                in_body = bool(guard_if) and any(apps[0] is x for b in guard_if[0].body for x in ast.walk(b))
+                notin = isinstance(tests[0].ops[0], ast.NotIn)
+                cont = bool(guard_if) and any(isinstance(x, ast.Continue) for b in guard_if[0].body for x in ast.walk(b))
+                keeps_others = (notin and in_body) or ((not notin) and (cont or not in_body))
+                ok = dropped == {"NewFieldName", "OutFileName"} and keeps_others
+                why = "arguments kept in order by an explicit loop, dropping exactly %s" % sorted(dropped or [])
     ctx.ob("C16.b", "%s::arguments" % fi.key, utils.rel, ctor.lineno, ok, why if ok else "converted arguments are not `old arguments minus {NewFieldName, OutFileName}` in order: %s" % why)
     e = args.get("lineno")
     ok = is_node_attr(e, "lineno")
@@ -166,6 +193,18 @@ def run(ctx, idx):
     if pp is not None:
         s = K.src(pp.node)
         ok = "2 if self.eems_v2 else 3" in s
+        if not ok:
+            # statement form: `if self.eems_v2: version = 2 else: version = 3` feeding ProgramNode(..., version)
+            for n in own_nodes(pp.node):
+                if isinstance(n, ast.If) and K.src(n.test) in ("self.eems_v2", "self.eems_v2 is True") and len(n.body) == 1 and len(n.orelse) == 1:
+                    b, o = n.body[0], n.orelse[0]
+                    if isinstance(b, ast.Assign) and isinstance(o, ast.Assign) and isinstance(b.value, ast.Constant) and isinstance(o.value, ast.Constant) and b.value.value == 2 and o.value.value == 3 and K.src(b.targets[0]) == K.src(o.targets[0]):
+                        nm = K.src(b.targets[0])
+                        ok = any(isinstance(c, ast.Call) and K.src(c.func).endswith("ProgramNode") and any(K.src(a) == nm for a in list(c.args) + [k.value for k in c.keywords]) for c in own_nodes(pp.node))
+                if isinstance(n, ast.If) and K.src(n.test) in ("not self.eems_v2",) and len(n.body) == 1 and len(n.orelse) == 1:
+                    b, o = n.body[0], n.orelse[0]
+                    if isinstance(b, ast.Assign) and isinstance(o, ast.Assign) and isinstance(b.value, ast.Constant) and isinstance(o.value, ast.Constant) and b.value.value == 3 and o.value.value == 2:
+                        ok = True
         ctx.ob("C16.c", "mpilot/parser/parser.py::Parser.p_program::version", pmod.rel, pp.node.lineno, ok, "program node reports 2 iff the flag is set" if ok else "p_program does not report version 2 exactly when the flag is set")
 
 
